@@ -13,7 +13,7 @@ cd "$wt" || exit 2
 readme=$(mktemp); tr '\n' ' ' < $md/demo/README.md | sed -E 's/(go test )/\n    \1/g; s/(Clean tree|Expected|What the|With `?patch)/\n\1/g' > $readme; echo >> $readme
 mapfile -t copies < <( { grep -oE 'Copy `[^`]+` to `[^`]+`' "$readme" | sed -E 's/Copy `([^`]+)` to `([^`]+)`/\1 \2/'; grep -oE '[A-Za-z0-9_./-]+\.go[` ]*-> *`?[A-Za-z0-9_./-]+\.go' "$readme" | sed -E 's/[` ]*-> *`?/ /'; } | awk '{n=split($1,a,"/"); src=$1; if (index($1,"demo/")) {sub(/^.*demo\//,"",src)}; print src" "$2}' | sort -u)
 if [ ${#copies[@]} -eq 0 ]; then echo "no demo copy instructions parsed from $readme"; exit 2; fi
-mapfile -t cmds < <(grep -E '^\s*go test ' "$readme" | sed -E 's/^\s+//')
+mapfile -t cmds < <(grep -E '^\s*go test ' "$md/demo/README.md" | sed -E 's/^\s+//')
 if [ ${#cmds[@]} -eq 0 ]; then echo "no go test command found in $readme"; exit 2; fi
 copy_demo() { for c in "${copies[@]}"; do set -- $c; mkdir -p "$(dirname "$2")"; cp "$md/demo/$1" "$2"; done; }
 rm_demo() { for c in "${copies[@]}"; do set -- $c; rm -f "$2"; done; }
